@@ -212,68 +212,89 @@ def beforeLimit (content : List (Item × PRes)) : Limit → List (Item × PRes) 
   | .item i => (content.takeWhile (fun x => x.1 != i), content.any (fun x => x.1 == i))
   | _ => (content, true)
 
+/-- `if username not in theory_cache: load_metadata(username)` -/
+def ensureMeta (s : State) : R := if s.cache.isNone then loadMetadata s else (none, s)
+
+/-- the lazy imports of `load_theory_cache`, inside their own fresh_theory block (fix C12-1) -/
+def lazyStep (W : World) (rec : Call → State → R) (n : Name) (s : State) : R :=
+  match W.lazyOf n with
+  | none => (none, s)
+  | some m => let r := rec (.imp m) s.push; (r.1, r.2.pop)
+
+/-- parse the file in the theory built by the block; record the result only on success (fix C12-2) -/
+def parseStep (W : World) (fault : Option Item) (n : Name) (e : Entry) (t : Nat) (deps : List (Name × Nat)) (s : State) : R :=
+  let s := s.logEv (.readFile n)
+  match parseAll (W.pf fault) (s.thy.getD []) (s.files n).items with
+  | none => (some .parse, s.pop)
+  | some content =>
+    (none, s.pop.setEntry n { imports := e.imports, stamp := some t, content := content, deps := deps })
+
+/-- `load_theory_cache` after the cache was found out of date -/
+def ltcMiss (W : World) (fault : Option Item) (rec : Call → State → R) (n : Name) (e : Entry) (s : State) : R :=
+  match lazyStep W rec n s with
+  | (some e', s1) => (some e', s1)
+  | (none, s1) =>
+    -- depend_list = get_import_order(cache['imports'])
+    match s1.order e.imports with
+    | none => (some .order, s1)
+    | some order =>
+      -- with theory.fresh_theory(): for prev_name in depend_list: …
+      match loopDeps (fun p s => rec (.ltc p) s) order s1.push [] with
+      | (some e', s2, _) => (some e', s2.pop)
+      | (none, s2, deps) => parseStep W fault n e (s.files n).mtime deps s2
+
+/-- `load_theory_cache(n)` -/
+def ltcBody (W : World) (fault : Option Item) (rec : Call → State → R) (n : Name) (s : State) : R :=
+  match ensureMeta s with
+  | (some e, s1) => (some e, s1)
+  | (none, s1) =>
+    -- cache = theory_cache[username][filename]
+    match s1.entry n with
+    | none => (some .key, s1)
+    | some e => if e.valid s1 n then (none, s1) else ltcMiss W fault rec n e s1
+
+/-- first import of module `m`: its body runs once; a failing import is forgotten by sys.modules -/
+def impBody (W : World) (rec : Call → State → R) (m : Mod) (s : State) : R :=
+  if s.imported m then (none, s) else
+  let s1 := { s with imported := fun k => if k = m then true else s.imported k }
+  let s2 := s1.logEv (.execMod m)
+  match runActs rec (W.body m) s2 with
+  | (some e, s') => (some e, { s' with imported := fun k => if k = m then false else s'.imported k })
+  | (none, s') => (none, s')
+
+/-- the part of `load_theory` after the imports are loaded: own items before the limit -/
+def loadFinish (n : Name) (lim : Limit) (s : State) : R :=
+  match lim with
+  | .start => (none, s)
+  | _ =>
+    match s.entry n with
+    | none => (some .key, s)
+    | some e =>
+      let bl := beforeLimit e.content lim
+      let s' := s.extend (okItems bl.1)
+      if bl.2 then (none, s') else (some .limit, s')
+
+/-- `load_theory(n, limit=lim)` -/
+def loadBody (rec : Call → State → R) (n : Name) (lim : Limit) (s : State) : R :=
+  match rec (.ltc n) s with
+  | (some e, s1) => (some e, s1)
+  | (none, s1) =>
+    match s1.entry n with
+    | none => (some .key, s1)
+    | some e =>
+      match s1.order e.imports with
+      | none => (some .order, s1)
+      | some order =>
+        -- theory.thy = EmptyTheory(); for prev_name in depend_list: …
+        match loopDeps (fun p s => rec (.ltc p) s) order { s1 with thy := some [] } [] with
+        | (some e', s2, _) => (some e', s2)
+        | (none, s2, _) => loadFinish n lim s2
+
 def exec (W : World) (fault : Option Item) : Nat → Call → State → R
   | 0, _, s => (some .fuel, s)
-  | f + 1, .ltc n, s =>
-    -- if username not in theory_cache: load_metadata(username)
-    match (if s.cache.isNone then loadMetadata s else (none, s)) with
-    | (some e, s) => (some e, s)
-    | (none, s) =>
-    -- cache = theory_cache[username][filename]
-    match s.entry n with
-    | none => (some .key, s)
-    | some e =>
-    let t := (s.files n).mtime
-    if e.valid s n then (none, s) else
-    -- lazy imports, inside their own fresh_theory block (fix C12-1)
-    match (match W.lazyOf n with
-           | none => ((none, s) : R)
-           | some m => let r := exec W fault f (.imp m) s.push; (r.1, r.2.pop)) with
-    | (some e', s) => (some e', s)
-    | (none, s) =>
-    -- depend_list = get_import_order(cache['imports'])
-    match s.order e.imports with
-    | none => (some .order, s)
-    | some order =>
-    -- with theory.fresh_theory(): …
-    match loopDeps (fun p s => exec W fault f (.ltc p) s) order s.push [] with
-    | (some e', s, _) => (some e', s.pop)
-    | (none, s, deps) =>
-    let s := s.logEv (.readFile n)
-    match parseAll (W.pf fault) (s.thy.getD []) (s.files n).items with
-    | none => (some .parse, s.pop)      -- fix C12-2: nothing recorded
-    | some content =>
-      (none, s.pop.setEntry n { imports := e.imports, stamp := some t, content := content, deps := deps })
-  | f + 1, .imp m, s =>
-    if s.imported m then (none, s) else
-    let s := { s with imported := fun k => if k = m then true else s.imported k }
-    let s := s.logEv (.execMod m)
-    match runActs (exec W fault f) (W.body m) s with
-    | (some e, s') => (some e, { s' with imported := fun k => if k = m then false else s'.imported k })
-    | (none, s') => (none, s')
-  | f + 1, .load n lim, s =>
-    match exec W fault f (.ltc n) s with
-    | (some e, s) => (some e, s)
-    | (none, s) =>
-    match s.entry n with
-    | none => (some .key, s)
-    | some e =>
-    match s.order e.imports with
-    | none => (some .order, s)
-    | some order =>
-    -- theory.thy = EmptyTheory()
-    match loopDeps (fun p s => exec W fault f (.ltc p) s) order { s with thy := some [] } [] with
-    | (some e', s, _) => (some e', s)
-    | (none, s, _) =>
-    match lim with
-    | .start => (none, s)
-    | _ =>
-      match s.entry n with
-      | none => (some .key, s)
-      | some e =>
-        let bl := beforeLimit e.content lim
-        let s := s.extend (okItems bl.1)
-        if bl.2 then (none, s) else (some .limit, s)
+  | f + 1, .ltc n, s => ltcBody W fault (exec W fault f) n s
+  | f + 1, .imp m, s => impBody W (exec W fault f) m s
+  | f + 1, .load n lim, s => loadBody (exec W fault f) n lim s
 
 /-! ### histories -/
 
